@@ -185,7 +185,8 @@ impl<F: AsFd, E> Generic<F, E> {
 //@ item src/sources/generic.rs / impl EventSource for Generic<F, E> / type Error props=C16
 //@ enditem
 //@ region generic_protocol props=C16,C01,C07,C15,C18
-    open spec fn wf(&self) -> bool { self.has_file() && (self.tok() is Some ==> self.has_poller()) }
+    /// (token and poller are remembered and forgotten together)
+    open spec fn wf(&self) -> bool { self.has_file() && (self.tok() is Some <==> self.has_poller()) }
     open spec fn registered(&self) -> bool { self.tok() is Some }
     open spec fn register_req(&self) -> bool { self.wf() && !self.registered() }
     /// the poller/token are recorded only after a successful registration (C15)
